@@ -194,6 +194,7 @@ class SimFS(object):
         self._nreads = 0
         self.fired = {}
         self.bytes_read = 0
+        self.ticks_per_second = 1     # modification times are reported as ticks / ticks_per_second
 
     # -- helpers -------------------------------------------------------------
     def norm(self, path):
@@ -349,10 +350,24 @@ class SimFS(object):
         path = self.norm(path)
         self._op("getmtime", path, 0)
         if path in self.files:
-            return float(self.mtime[path])
+            return float(self.mtime[path]) / self.ticks_per_second
         if path in self.dirs:
             return 0.0
         raise FileNotFoundError(errno.ENOENT, "No such file or directory", path)
+
+    def stat(self, path):
+        """os.stat: whole seconds in the tuple, the exact time in st_mtime"""
+        path = self.norm(path)
+        self._op("stat", path, 0)
+        if path in self.files:
+            t = float(self.mtime[path]) / self.ticks_per_second
+            size = len(self.files[path])
+            mode = 0o100644
+        elif path in self.dirs:
+            t, size, mode = 0.0, 0, 0o040755
+        else:
+            raise FileNotFoundError(errno.ENOENT, "No such file or directory", path)
+        return _real_os.stat_result((mode, 0, 0, 1, 0, 0, size, int(t), int(t), int(t), t, t, t))
 
     def getsize(self, path):
         path = self.norm(path)
@@ -548,6 +563,8 @@ class SimOS(object):
         self.makedirs = fs.makedirs
         self.mkdir = fs.mkdir
         self.listdir = fs.listdir
+        self.stat = fs.stat
+        self.lstat = fs.stat
         self.environ = {}
 
     def getcwd(self):
